@@ -168,9 +168,29 @@ async def _hist_impl(cfg: str, w: int, ops: list) -> list[str]:
         api = Cache()
         api.setup("mem://?check_interval=0")
         await api.init()
+    txs: list = []           # the open transaction block of the facade, if any
+
+    async def leave_tx():
+        if txs:
+            await txs.pop().__aexit__(None, None, None)
+
     try:
         for op in ops:
             try:
+                # ["begin", mode] ... ["end"]: the ops in between run inside `async with cache.transaction(mode)` (facade only).
+                # A block also ends before the next `adv` / `del` (time does not pass and keys are not deleted inside a
+                # transaction here) and at the end of the history.  Bit-field commands are not buffered: a block changes nothing.
+                if op[0] in ("begin", "end", "adv", "del"):
+                    await leave_tx()
+                    if op[0] == "begin" and cfg == "facade":
+                        from cashews import TransactionMode
+
+                        tx = api.transaction(TransactionMode(op[1]))
+                        await tx.__aenter__()
+                        txs.append(tx)
+                    if op[0] in ("begin", "end"):
+                        outs.append("r=-")
+                        continue
                 if op[0] == "adv":                      # virtual time passes, nothing touches any key (no purge task: check_interval=0)
                     vtime.CLOCK.advance(op[1])
                     outs.append("r=-")
@@ -198,12 +218,13 @@ async def _hist_impl(cfg: str, w: int, ops: list) -> list[str]:
                 raise
             except Exception as e:  # noqa: BLE001
                 outs.append("E:" + type(e).__name__)
+        await leave_tx()
     finally:
         await api.close()
     return outs
 
 
-TIMED_OPS = ("expire", "adv", "del", "touch")
+TIMED_OPS = ("expire", "adv", "del", "touch", "begin", "end")
 
 
 def _hist_spec(w: int, ops: list):
@@ -217,7 +238,18 @@ def _hist_spec(w: int, ops: list):
     stale: set = set()      # keys whose deadline passed and that no command has touched since (entry physically still stored)
     now = 0
     outs, stats = [], set()
+    in_tx = False
     for op in ops:
+        if op[0] in ("begin", "end"):       # a transaction block of the facade: transparent for bit-field keys
+            in_tx = op[0] == "begin"
+            outs.append("r=-")
+            continue
+        if op[0] in ("adv", "del"):
+            in_tx = False
+        elif in_tx:
+            stats.add("command_inside_transaction_block")
+            if op[0] == "expire":
+                stats.add("expire_inside_transaction_block")
         if op[0] == "adv":
             now += op[1]
             for key in [k for k, d in dl.items() if d <= now]:
@@ -278,7 +310,7 @@ def _hist_spec(w: int, ops: list):
             outs.append(f"r={int(key in live)}")
         else:
             raise HarnessError(f"unknown history op {op}")
-    if len({op[1] for op in ops if op[0] != "adv"}) > 1:
+    if len({op[1] for op in ops if op[0] not in ("adv", "begin", "end")}) > 1:
         stats.add("two_keys_interleaved")
     return outs, stats
 
@@ -308,10 +340,12 @@ def eval_hist(cases: list[dict]) -> list[Res]:
         for k, (o, s) in enumerate(zip(impl, spec)):
             if o != s and r.diff_spec is None:
                 r.diff_spec = f"step {k} {ops[k]} (width {w}, {c['cfg']}): implementation {o}, independent saturating counters {s}"
-        for key in sorted({op[1] for op in ops if op[0] != "adv"}):
+        for key in sorted({op[1] for op in ops if op[0] not in ("adv", "begin", "end")}):
             lines.append(f"bits {w}")
             where.append(None)
             for k, op in enumerate(ops):        # one model instance per key; time passes for every key
+                if op[0] in ("begin", "end"):   # no step of the model (Model/Bloom.lean, "controls of the facade")
+                    continue
                 if op[0] != "adv" and op[1] != key:
                     continue
                 lines.append(_hist_line(op))
@@ -564,6 +598,22 @@ SIG_NAMES = {                   # explicit key templates that may be used with a
 }
 
 
+def tid1(v):
+    """typed identity of one argument value: 1, True and 1.0 are equal (and hash-equal) in Python but are three different
+    elements for a filter - the key formatter renders them `1`, `true`, `1.0`"""
+    return (type(v).__name__, repr(v))
+
+
+def tid(el, tn=None) -> tuple:
+    """identity of an ELEMENT in the harness's own bookkeeping: the bound arguments with their types (+ the value of the
+    key-context variable when the key template mentions one)"""
+    el = (el,) if isinstance(el, str) else tuple(el)
+    return tuple(tid1(v) for v in el) + ((("ctx", repr(tn)),) if tn is not None else ())
+
+
+CTX_SUFFIX = ":{@:get(tn)}"        # appended to the key template of cases with "ctx": the key also depends on key_context(tn=...)
+
+
 def make_pred(sig: str, on_call):
     """a fresh coroutine function with the given signature; `on_call(element)` produces its answer"""
     if sig == "k":
@@ -595,13 +645,13 @@ def call_forms(sig: str, el: tuple) -> list:
     forms = []
     for npos in range(maxpos, -1, -1):
         rest = names[npos:]
-        optional = [n for n in rest if n in defaults and defaults[n] == el[names.index(n)]]
+        optional = [n for n in rest if n in defaults and tid1(defaults[n]) == tid1(el[names.index(n)])]
         for mask in range(1 << len(optional)):
             omitted = {n for b, n in enumerate(optional) if mask >> b & 1}
             kw = [(n, el[names.index(n)]) for n in rest if n not in omitted]
             for order in (kw, kw[::-1]):
                 form = (tuple(el[:npos]), dict(order))
-                if not any(f[0] == form[0] and list(f[1].items()) == list(form[1].items()) for f in forms):
+                if not any(len(f[0]) == len(form[0]) and list(f[1]) == list(form[1]) for f in forms):
                     forms.append(form)
     return forms
 
@@ -613,12 +663,63 @@ def step_element(sig: str, st: list):
     return el, (st[2] if len(st) > 2 else 0)
 
 
+def step_opts(st: list) -> dict:
+    return st[3] if len(st) > 3 and isinstance(st[3], dict) else {}
+
+
+# controls of the facade that may be open around steps of a bloom case: ["in", ctl, [steps]]
+HARMLESS_DISABLED = ("get", "set", "get_many", "incr", "get_match", "ping")
+CONTROLS = ["invalidate", "tx:fast", "tx:locked", "tx:serializable", "dis:get_bits", "dis:incr_bits"] + ["dis:" + c for c in HARMLESS_DISABLED]
+
+
+@contextlib.asynccontextmanager
+async def control(be, ctl: str):
+    """open one control of the `Cache` facade (a bare backend has none: the block is then just its steps)"""
+    from cashews import Cache
+
+    if not isinstance(be, Cache):
+        yield
+        return
+    if ctl == "invalidate":
+        from cashews import invalidate_further
+
+        with invalidate_further():
+            yield
+    elif ctl.startswith("dis:"):
+        from cashews.commands import Command
+
+        with be.disabling(Command(ctl[4:])):
+            yield
+    elif ctl.startswith("tx:"):
+        from cashews import TransactionMode
+
+        async with be.transaction(TransactionMode(ctl[3:])):
+            yield
+    else:
+        raise HarnessError(f"unknown control {ctl}")
+
+
+def flat_steps(steps: list):
+    """(step, control or None, block number) for every step, blocks flattened"""
+    blk = 0
+    for st in steps:
+        if st[0] == "in":
+            blk += 1
+            for inner in st[2]:
+                if inner[0] == "in":
+                    raise HarnessError("nested control blocks are not generated")
+                yield inner, st[1], blk
+        else:
+            yield st, None, 0
+
+
 def show_call(form) -> str:
     args, kwargs = form
     return "(" + ", ".join([repr(a) for a in args] + [f"{k}={v!r}" for k, v in kwargs.items()]) + ")"
 
 
 async def _bloom_impl(c: dict):
+    from cashews import key_context
     from cashews.decorators.bloom import bloom
     from cashews.key import get_cache_key, get_cache_key_template
 
@@ -627,42 +728,49 @@ async def _bloom_impl(c: dict):
     yes, no = TRUTHY[c.get("truthy", "bool")]
     sig = c.get("sig", "k")
     names = SIGS[sig][0]
-    true_set = {(e,) if isinstance(e, str) else tuple(e) for e in c["true_set"]}
+    ctx = bool(c.get("ctx"))
+    name = c["name"] + CTX_SUFFIX if ctx else c["name"]
+    true_set = {tid(e) for e in c["true_set"]}
     calls: list = []
 
     def on_call(el):
         calls.append(el)
-        return yes if el in true_set else no
+        return yes if tid(el) in true_set else no
 
     pred = make_pred(sig, on_call)
     steps = []
     try:
-        kw = dict(capacity=c["capacity"], false_positives=c["fp"], check_false_positive=c["chk"], name=c["name"])
-        try:
-            deco = be.bloom(**kw) if c["via"] == "facade" else bloom(backend=be, **kw)
-            func = deco(pred)
-        except AssertionError:
-            return {"decorate": "assert", "steps": []}
-        tpl = get_cache_key_template(pred, key=c["name"])
+        kw = dict(capacity=c["capacity"], false_positives=c["fp"], check_false_positive=c["chk"], name=name)
+        with key_context(tn="") if ctx else contextlib.nullcontext():     # (the template check at decoration time needs the variable to exist)
+            try:
+                deco = be.bloom(**kw) if c["via"] == "facade" else bloom(backend=be, **kw)
+                func = deco(pred)
+            except AssertionError:
+                return {"decorate": "assert", "steps": []}
+            tpl = get_cache_key_template(pred, key=name)
         params = bloom_params(c["capacity"], c["fp"])
         filter_key = f"bloom:{tpl}:{params[0]}" if not isinstance(params, str) else None
-        for st in c["steps"]:
+
+        async def one(st, ctl):
             kind = st[0]
             del rec[:], calls[:]
             if kind in ("add", "query"):
                 el, fi = step_element(sig, st)
+                tn = step_opts(st).get("tn") if ctx else None
                 forms = call_forms(sig, el)
                 args, kwargs = forms[fi % len(forms)]
-                # the element's key: the library's own key function on the canonical call (every parameter by keyword, defaults filled in)
-                key = get_cache_key(pred, tpl, (), dict(zip(names, el)))
-                try:
-                    res = await (func.set(*args, **kwargs) if kind == "add" else func(*args, **kwargs))
-                    outcome = "T" if res else "F"
-                except Exception as e:  # noqa: BLE001
-                    outcome = "E:" + type(e).__name__
-                steps.append({"kind": kind, "el": list(el), "call": show_call((args, kwargs)), "key": key, "impl": outcome, "called": bool(calls),
+                with key_context(tn=tn) if ctx else contextlib.nullcontext():
+                    # the element's key: the library's own key function on the canonical call (every parameter by keyword, defaults filled in)
+                    key = get_cache_key(pred, tpl, (), dict(zip(names, el)))
+                    try:
+                        res = await (func.set(*args, **kwargs) if kind == "add" else func(*args, **kwargs))
+                        outcome = "T" if res else "F"
+                    except Exception as e:  # noqa: BLE001
+                        outcome = "E:" + type(e).__name__
+                steps.append({"kind": kind, "el": list(el), "tn": tn, "ctl": ctl, "call": show_call((args, kwargs)) + (f" [tn={tn!r}]" if ctx else ""),
+                              "key": key, "impl": outcome, "called": bool(calls),
                               "backend": [(n, k, sorted(i), kw2) for n, k, i, kw2 in rec], "nidx": [len(i) for _, _, i, _ in rec]})
-                continue
+                return
             # commands on the filter's own key / passage of time (the filter is an ordinary key of the backend)
             try:
                 if kind == "adv":
@@ -681,10 +789,42 @@ async def _bloom_impl(c: dict):
                 raise
             except Exception as e:  # noqa: BLE001
                 outcome = "E:" + type(e).__name__
-            steps.append({"kind": kind, "arg": st[1] if len(st) > 1 else None, "impl": outcome, "backend": [], "nidx": []})
+            steps.append({"kind": kind, "arg": st[1] if len(st) > 1 else None, "ctl": ctl, "impl": outcome, "backend": [], "nidx": []})
+
+        for st in c["steps"]:
+            if st[0] != "in":
+                await one(st, None)
+                continue
+            if any(inner[0] == "in" for inner in st[2]):
+                raise HarnessError("nested control blocks are not generated")
+            n0 = len(steps)
+            try:
+                async with control(be, st[1]):
+                    for inner in st[2]:
+                        await one(inner, st[1])
+            except HarnessError:
+                raise
+            except Exception as e:  # noqa: BLE001   (leaving the block failed, e.g. the commit)
+                steps.append({"kind": "leave", "ctl": st[1], "impl": "E:" + type(e).__name__, "backend": [], "nidx": []})
+            else:
+                steps.append({"kind": "leave", "ctl": st[1], "impl": "-", "backend": [], "nidx": []})
+            if len(steps) == n0:
+                raise HarnessError("control block produced no record")
         return {"decorate": "ok", "tpl": tpl, "steps": steps}
     finally:
         await be.close()
+
+
+def _pyeq_class(ident: tuple, steps: list):
+    """a representative of the element's class under Python's `==`/hash (1 == True == 1.0): what a dict / lru_cache /
+    set keyed by the raw arguments would take for "the same call" """
+    for p in steps:
+        if p["kind"] in ("add", "query") and tid(p["el"], p.get("tn")) == ident:
+            try:
+                return hash((tuple(p["el"]), p.get("tn")))
+            except TypeError:
+                return ident
+    return ident
 
 
 def eval_bloom(cases: list[dict]) -> list[Res]:
@@ -710,10 +850,13 @@ def eval_bloom(cases: list[dict]) -> list[Res]:
         if not (0 < k <= m):
             r.diff_spec = f"params_for({c['capacity']}, {c['fp']}/100) = (m={m}, k={k}) violates 0 < k <= m"
             continue
-        true_set = {(e,) if isinstance(e, str) else tuple(e) for e in c["true_set"]}
+        true_set = {tid(e) for e in c["true_set"]}
         # the property's own bookkeeping: which elements are in the filter.  The filter is a key of the backend: it is
         # empty again once that key was deleted or its deadline has passed (eagerly, whether anything looked or not)
         added: dict = {}        # element -> set of call forms it was added through
+        looked: set = set()     # elements that were looked up
+        universe_ids = {tid(p["el"], p.get("tn")) for p in impl["steps"] if p["kind"] in ("add", "query")}
+        pyeq = {a: _pyeq_class(a, impl["steps"]) for a in universe_ids}
         nadded = 0
         now, deadline, live, stale = 0, None, False, False
         lines.append("bloom")
@@ -721,6 +864,13 @@ def eval_bloom(cases: list[dict]) -> list[Res]:
         want_key = f"bloom:{impl['tpl']}:{m}"
         for si, st in enumerate(impl["steps"]):
             kind = st["kind"]
+            ctl = st.get("ctl")
+            if ctl:
+                r.stats.add("step_inside_" + ctl.split(":")[0] + "_block")
+            if kind == "leave":
+                if st["impl"] != "-" and r.diff_spec is None:
+                    r.diff_spec = f"step {si}: leaving the {ctl} block raised {st['impl']}"
+                continue
             if kind not in ("add", "query"):
                 if st["impl"].startswith(("E:", "?")) and r.diff_spec is None:
                     r.diff_spec = f"step {si}: {kind} on the filter's key {want_key!r} gave {st['impl']}"
@@ -746,8 +896,21 @@ def eval_bloom(cases: list[dict]) -> list[Res]:
                     lines.append("btouch")
                 where.append((ci, si, "cmd"))
                 continue
-            el = tuple(st["el"])
-            under = el in true_set
+            el = tid(st["el"], st.get("tn"))
+            under = tid(st["el"]) in true_set
+            off = c["via"] == "facade" and ((kind == "query" and ctl == "dis:get_bits") or (kind == "add" and ctl == "dis:incr_bits"))
+            if kind == "query" and ctl and el in added:
+                r.stats.add("query_of_added_element_inside_" + ctl.split(":")[0] + "_block")
+            if kind == "query" and not ctl and el in added and any(p.get("ctl") for p in impl["steps"][:si] if p["kind"] == "query"):
+                r.stats.add("query_of_added_element_after_a_lookup_inside_a_control_block")
+            if kind == "query" and el not in added and el not in looked:
+                twins = [a for a in universe_ids if a != el and [v[1] for v in a] != [v[1] for v in el] and pyeq.get(a) == pyeq.get(el)]
+                if twins:
+                    r.stats.add("lookup_of_an_equal_but_differently_rendered_twin")
+            if kind == "query":
+                looked.add(el)
+            if kind == "query" and el in added and any(pyeq.get(a) == pyeq.get(el) and a != el for a in looked):
+                r.stats.add("query_of_added_element_whose_twin_was_looked_up_before")
             # --- the property itself, on the implementation's own answers
             if kind == "query" and el in added:
                 r.stats.add("query_of_added_element")
@@ -765,7 +928,9 @@ def eval_bloom(cases: list[dict]) -> list[Res]:
                 r.stats.add("false_positive_checked_by_call")
             if kind == "query" and stale:
                 r.stats.add("query_on_run_out_unpurged_filter")
-            if kind == "add" and st["impl"] == "T":
+            if kind == "add" and st["impl"] == "T" and off:
+                r.stats.add("add_with_incr_bits_disabled_is_not_an_add")
+            if kind == "add" and st["impl"] == "T" and not off:
                 if stale:
                     r.stats.add("add_on_run_out_unpurged_filter")
                 if deadline is not None:
@@ -774,15 +939,19 @@ def eval_bloom(cases: list[dict]) -> list[Res]:
                     nadded += 1
                 added.setdefault(el, set()).add(st["call"])
                 live = True
-            if kind == "query" or st["impl"] == "T":
+            if (kind == "query" or st["impl"] == "T") and not off:
                 stale = False
             if kind == "add" and st["impl"] not in ("T", "F") and r.diff_spec is None:
                 r.diff_spec = f"step {si}: func.set{st['call']} raised {st['impl']}"
             # --- model
             lines.append(idx_line("e", st["key"], k, m, funcs))
-            where.append((ci, si, "idx"))
+            where.append((ci, si, "idx-off" if off else "idx"))
+            if off and kind == "add":       # the command never reaches the backend: nothing is added
+                continue
             if kind == "add":
                 lines.append(f"badd {'T' if under else 'F'} $e")
+            elif off:                       # get_bits answers None: the decorator asks the wrapped function
+                lines.append(f"bqueryoff {'T' if under else 'F'}")
             else:
                 lines.append(f"bquery {'T' if c['chk'] else 'F'} {'T' if under else 'F'} $e")
             where.append((ci, si, kind))
@@ -803,6 +972,8 @@ def eval_bloom(cases: list[dict]) -> list[Res]:
         if what == "cmd":
             if ans != "ok":
                 raise HarnessError(f"driver answered `{ans}` to `{line}`")
+        elif what == "idx-off":
+            st["model_indexes"] = ans
         elif what == "idx":
             st["model_indexes"] = ans
             if not ans.startswith("S="):
@@ -838,12 +1009,12 @@ async def _dual_impl(c: dict):
     be = await _mk_backend(c["via"], rec)
     sig = c.get("sig", "k")
     names = SIGS[sig][0]
-    true_set = {(e,) if isinstance(e, str) else tuple(e) for e in c["true_set"]}
+    true_set = {tid(e) for e in c["true_set"]}
     calls: list = []
 
     def on_call(el):
         calls.append(el)
-        return el in true_set
+        return tid(el) in true_set
 
     pred = make_pred(sig, on_call)
     steps = []
@@ -895,12 +1066,12 @@ def eval_dual(cases: list[dict]) -> list[Res]:
         (mt, kt), (mf, kf) = pt, pf
         lines.append("dual")
         where.append(None)
-        true_set = {(e,) if isinstance(e, str) else tuple(e) for e in c["true_set"]}
+        true_set = {tid(e) for e in c["true_set"]}
         seen_forms: dict = {}
         recorded: dict = {}     # element -> the call that wrote its bits into the true filter
         true_key = impl["tpl"] + ":true"
         for si, st in enumerate(impl["steps"]):
-            el = tuple(st["el"])
+            el = tid(st["el"])
             if seen_forms.setdefault(el, st["call"]) != st["call"]:
                 r.stats.add("same_element_in_another_call_form")
             # what can be said of dual_bloom at the level of the property (theorem dual_recorded_never_false): an element
@@ -918,7 +1089,7 @@ def eval_dual(cases: list[dict]) -> list[Res]:
             where.append((ci, si, "it"))
             lines.append(idx_line("f", st["key"] + "false", kf, mf, funcs))
             where.append((ci, si, "if"))
-            lines.append(f"dcall {'T' if c['no_collisions'] else 'F'} {'T' if tuple(st['el']) in true_set else 'F'} $t $f")
+            lines.append(f"dcall {'T' if c['no_collisions'] else 'F'} {'T' if tid(st['el']) in true_set else 'F'} $t $f")
             where.append((ci, si, "call"))
     answers = DRIVER.ask(lines) if lines else []
     for ans, wh, line in zip(answers, where, lines):
